@@ -19,7 +19,9 @@ def execute(c):
     try:
         _, _, rr = plan(c)
         ev["o"] = {"roi_src": roi4(rr.roi_src), "roi_dst": roi4(rr.roi_dst), "paste_ok": bool(rr.paste_ok),
-                   "shrink": int(rr.read_shrink) if float(rr.read_shrink).is_integer() else -1, "scale": lat(rr.scale, D, 1e-5)}
+                   "shrink": int(rr.read_shrink) if float(rr.read_shrink).is_integer() else -1,
+                   # the SQUARE of the scale is on the lattice for every rational map (a sheared map's scale itself is a square root)
+                   "scale": lat((rr.scale * D) ** 2, 1, 1e-3 * max(1.0, (rr.scale * D)))}
         if abs(min(rr.scale2.xy) - rr.scale) > 1e-9:
             ev["outcome"] = "scale_is_not_min_of_scale2"
     except OffLattice:
